@@ -249,6 +249,14 @@ func tIte(c, a, b *Term) *Term {
 }
 
 func tEq(a, b *Term) *Term {
+	// byte-at compared with a constant: stay in the string theory (no int2bv)
+	if b.Op == "(_ int2bv 8)" && a.IsConst() {
+		a, b = b, a
+	}
+	if a.Op == "(_ int2bv 8)" && b.IsConst() && a.Args[0].Op == "str.to_code" {
+		at := a.Args[0].Args[0]
+		return mkOp("=", SBool, at, mkStr(string([]byte{byte(b.U)})))
+	}
 	a, b = unifyStr(a, b)
 	if a.Op == "bOfS" && b.Op == "bOfS" {
 		return tEq(a.Args[0], b.Args[0]) // injectivity
